@@ -30,7 +30,7 @@ COMPONENTS = {"real": ["TradingEnv", "Transmitter", "Broker", "TrackRecord", "Re
               "harness": ["recording observers", "independent Fraction ledger", "reward model"], "stub": []}
 PROBE_FLOORS = {"step_without_trade": 100, "fees_positive": 300, "delay_positive": 97, "reward_clipped": 20,
                 "reward_negative_with_risk_aversion": 20, "interest_credited": 100, "compounding_checked": 16,
-                "own_costs_ruin_injected": 19, "futures_chain_world": 45}
+                "own_costs_ruin_injected": 19, "futures_chain_world": 45, "feature_values_account_at_every_quote": 80}
 
 PROFILE = {
     "n_min": 3, "n_max": 12, "n_long": 40, "p_long": 0.1, "c_min": 1, "c_max": 3, "p_bar": 1.0, "extras_max": 8,
@@ -74,6 +74,9 @@ def generate(rng, i):
     if f11:
         env["fees"]["fixed"] = env["cash"] * rng.choice([0.6, 0.35, 1.1])
         env["space"] = {"type": "box", "low": -1.0, "high": 1.0, "as_weights": True, "fractional": True, "margin": 0.0}
+    if rng.random() < 0.3:
+        # a feature that values the account at every quote, also between the same-stamp quotes of one bar
+        env["state"] = {"type": "rec", "feature": True, "k": env["state"].get("k", 2), "reads_account": True}
     fold = rng.choice(list(env["folds"])) if env["folds"] else None
     script = gen_epi.full_episode_script(rng, env, fold=fold, unique=False)
     if rng.random() < 0.3:
@@ -92,6 +95,8 @@ def execute(scenario):
     violations, probes, violate, probe = epicheck.mk_violation_sink()
     h = sim.handles[0]
     recs = [r for r in sim.sink.records if r.get("env") == 0]
+    if env_spec.get("state", {}).get("reads_account"):
+        probe("feature_values_account_at_every_quote")
     if scenario.get("chain_world"):
         probe("futures_chain_world")
     if scenario.get("f11"):
